@@ -61,6 +61,57 @@ func c14Scenarios() []c14Scenario {
 	add("headers-first-duplex", 40, 20, func(x *c14Case) {
 		x.Order, x.ReqBody, x.ReqChunk, x.SWin, x.ReqTrl, x.ResBody = 1, 250, 100, 100, 1, 20000
 	})
+	// header blocks that end their stream and need CONTINUATION, in both
+	// directions: request trailers / the header block of a bodyless response,
+	// and the header block of a bodyless request / response trailers
+	add("end-stream-blocks-continued-a", 40, 20, func(x *c14Case) {
+		x.ReqBody, x.ReqDecl, x.ReqTrl, x.ReqTrlPad, x.ResBody, x.ResPad = 300, false, 1, 17000, 0, 17000
+	})
+	add("end-stream-blocks-continued-b", 40, 20, func(x *c14Case) {
+		x.Method, x.ReqBody, x.ReqPad, x.ResBody, x.ResTrl, x.ResTrlPad = "GET", 0, 17000, 300, 1, 17000
+	})
+	return out
+}
+
+// c14BlockShape is a position of the padded header block in the exchange for
+// the header-block-boundary part.
+type c14BlockShape struct {
+	Name      string
+	Res       bool // the block travels server to client
+	Trailer   bool // the block is the trailer block (second block of its direction)
+	EndStream bool // the block's HEADERS frame carries END_STREAM
+	set       func(x *c14Case, n int)
+}
+
+func c14BlockShapes(wide bool) []c14BlockShape {
+	out := []c14BlockShape{
+		// request header block of a request without body: HEADERS carries END_STREAM
+		{"req-headers-no-body", false, false, true, func(x *c14Case, n int) { x.ReqPad = n }},
+		// request header block followed by DATA
+		{"req-headers-then-body", false, false, false, func(x *c14Case, n int) { x.Method, x.ReqBody, x.ReqPad = "POST", 5, n }},
+		// request trailer block
+		{"req-trailers", false, true, true, func(x *c14Case, n int) { x.Method, x.ReqBody, x.ReqDecl, x.ReqTrlPad = "POST", 5, false, n }},
+		// response header block followed by DATA
+		{"res-headers-then-body", true, false, false, func(x *c14Case, n int) { x.ResPad = n }},
+		// response header blocks that end the stream: the handler writes nothing,
+		// a status without content, the answer to HEAD
+		{"res-headers-no-body", true, false, true, func(x *c14Case, n int) { x.ResBody, x.ResPad = 0, n }},
+		{"res-headers-204", true, false, true, func(x *c14Case, n int) { x.Status, x.ResBody, x.ResPad = 204, 0, n }},
+		{"res-headers-head", true, false, true, func(x *c14Case, n int) { x.Method, x.ResPad = "HEAD", n }},
+		// response trailer block, declared in advance
+		{"res-trailers", true, true, true, func(x *c14Case, n int) { x.ResTrlPad = n }},
+	}
+	if wide {
+		out = append(out,
+			c14BlockShape{"res-headers-304", true, false, true, func(x *c14Case, n int) { x.Status, x.ResBody, x.ResPad = 304, 0, n }},
+			// response trailer block set through http.TrailerPrefix, after flushed body writes
+			c14BlockShape{"res-trailers-prefix-flushed", true, true, true, func(x *c14Case, n int) { x.ResTrl, x.ResFlush, x.ResTrlPad = -1, true, n }},
+			// request trailers while the response is already under way
+			c14BlockShape{"req-trailers-duplex", false, true, true, func(x *c14Case, n int) {
+				x.Method, x.ReqBody, x.ReqDecl, x.ReqTrlPad, x.Order = "POST", 5, false, n, 1
+			}},
+		)
+	}
 	return out
 }
 
@@ -81,6 +132,13 @@ func c14Outcome(x *c14Case, st *c14Stats) string {
 	}
 	if st.s2c.types[FrameContinuation] > 0 {
 		cont += " res-continuation"
+	}
+	// a header block that ends the stream and does not fit one frame
+	if st.c2s.endStreamC > 0 {
+		cont += " req-end-stream-block-continued"
+	}
+	if st.s2c.endStreamC > 0 {
+		cont += " res-end-stream-block-continued"
 	}
 	return fmt.Sprintf("%s %d req=%s res=%s trl=%v/%v%s", x.Method, x.Status, cls(x.ReqBody), cls(x.ResBody), x.ReqTrl != 0, x.ResTrl != 0, cont)
 }
@@ -104,7 +162,7 @@ func TestVerif_C14(t *testing.T) {
 		prevDbg := disableDebugGoroutines.Load()
 		disableDebugGoroutines.Store(true)
 		defer disableDebugGoroutines.Store(prevDbg)
-		c.Rule("a case = SETTINGS configuration (server/client max frame size, stream and connection windows, header table sizes, write scheduler, request before/after the SETTINGS exchange) x request shape (method, path, header set, body length, declared/undeclared length, body Read chunking, trailers) x response shape (status, 103, header set, body length, declared length, Write chunking, Flush, declared / TrailerPrefix trailers, handler order); parts: 'cover' = covering array of strength 2 (thorough: 3) over all 27 dimensions; 'request-product', 'response-product', 'header-product' = full products of the dimensions that interact in one direction; 'header-block-boundary' = a request / response header block whose encoded length is swept byte by byte from 160 below to 8 above 16384 (thorough: and 32768, and with 16 MB frames allowed), the observed block lengths at distance <= 2 of the boundary are recorded as outcomes; 'short-read' = base scenarios x every placement of <= 1 (thorough: <= 2) short reads (1 or 7 bytes) at every read index of either direction. non-trivial = the exchange completed and all request and response observations were compared; distinct = distinct frame-type traces on the wire (both directions), distinct header block lengths, distinct truncating short-read placements")
+		c.Rule("a case = SETTINGS configuration (server/client max frame size, stream and connection windows, header table sizes, write scheduler, request before/after the SETTINGS exchange) x request shape (method, path, header set, body length, declared/undeclared length, body Read chunking, trailers incl. a trailer block > 16 kB that needs CONTINUATION) x response shape (status, 103, header set, body length, declared length, Write chunking, Flush, declared / TrailerPrefix trailers incl. a trailer block > 16 kB, handler order); header set 2 really exceeds one frame after Huffman coding, so the pairs with bodyless messages (HEAD, 204, 304, empty body) put HEADERS(END_STREAM)+CONTINUATION on the wire; parts: 'cover' = covering array of strength 2 (thorough: 3) over all 27 dimensions; 'request-product', 'response-product', 'header-product' = full products of the dimensions that interact in one direction; 'header-block-boundary' = for every position a header block can take (request headers of a bodyless request / followed by a body, request trailers, response headers followed by a body / of a response whose handler writes nothing / 204 / to HEAD, declared response trailers; thorough: and 304, TrailerPrefix trailers after flushed writes, request trailers sent while the response is under way) the block's encoded length is swept byte by byte from about 160 below to at least 8 above 16384 (thorough: and 32768, and with 16 MB frames allowed), the observed block lengths at distance <= 2 of the boundary and whether a HEADERS frame carried END_STREAM without END_HEADERS are recorded as outcomes; 'short-read' = base scenarios x every placement of <= 1 (thorough: <= 2) short reads (1 or 7 bytes) at every read index of either direction. non-trivial = the exchange completed and all request and response observations were compared; distinct = distinct frame-type traces on the wire (both directions), distinct header block lengths, distinct truncating short-read placements")
 		c.Assume("excluded from the domain: request trailers without a request body stream; handlers that answer with a status > 299 before reading the request body (the Transport then stops sending the body by documented heuristic); 204/304 with content; bodies that would need more than 4000 window refills (1-byte windows with large bodies: cost); Expect: 100-continue, CONNECT, hop-by-hop fields, gzip (DisableCompression), Transfer-Encoding, Host/Priority/Trailer/Te fields set by the application; server push; concurrent requests on one connection (see C08-C11, C15, C17); the deprecated RFC 7540 scheduler in the two situations where the server resets the stream mid-handler (C12 finding crashes the server there)")
 		c.Assume("allow-list of fields the libraries add: request User-Agent default and Content-Length (must equal the body length); response Date (any value) and Content-Length (must equal the number of bytes the handler wrote); Content-Type sniffing is avoided by always setting Content-Type; HEAD responses carry neither body nor trailers; values of one field name are compared in order, different names as a multiset; names are compared after net/http canonicalisation")
 		c.Assume("goroutine schedules are those the Go scheduler produces with GOMAXPROCS=1 inside the bubble plus the variations induced by Early and by short reads; no preemption points inside library calls are enumerated")
@@ -180,38 +238,64 @@ func TestVerif_C14(t *testing.T) {
 		hdrVary := []string{"early", "c_tbl", "s_tbl", "req_trl", "res_trl", "req_hdr", "res_hdr"}
 		product("header-product", hd, hdrVary)
 
-		// ---- header block length swept across the frame-size boundaries
-		vx.Enumerate(c, "header-block-boundary", vx.Opts{Serial: true, Crumb: true}, func(yield func(c14Case) bool) {
-			for _, side := range []string{"req", "res"} {
+		// ---- header block length swept across the frame-size boundaries, for
+		// every position a header block can take in a message: the header
+		// block of a message with a body (END_STREAM comes later, on DATA or
+		// trailers), the header block of a bodyless message (HEADERS carries
+		// END_STREAM itself), and the trailer block (always END_STREAM)
+		shapes := c14BlockShapes(wide)
+		shapeByName := map[string]c14BlockShape{}
+		for _, sh := range shapes {
+			shapeByName[sh.Name] = sh
+		}
+		type blockCase struct {
+			Shape string `json:"block_shape"`
+			Big   bool   `json:"max_frame_size_16m"`
+			Pad   int    `json:"pad_field_len"`
+		}
+		vx.Enumerate(c, "header-block-boundary", vx.Opts{Serial: true, Crumb: true}, func(yield func(blockCase) bool) {
+			for _, sh := range shapes {
 				for _, big := range vx.Pick(c, []bool{false}, []bool{false, true}) {
 					for k := 1; k <= vx.Pick(c, 1, 2); k++ {
 						for n := k*16384 - 160; n <= k*16384+8; n++ {
-							x := c14Base()
-							x.Method, x.ReqBody, x.ReqHdr, x.ResHdr, x.ResBody = "GET", 0, 0, 0, 5
-							if big {
-								x.SFrame, x.CFrame = 1<<24-1, 1<<24-1
-							}
-							if side == "req" {
-								x.ReqPad = n
-							} else {
-								x.ResPad = n
-							}
-							if !yield(x) {
+							if !yield(blockCase{sh.Name, big, n}) {
 								return
 							}
 						}
 					}
 				}
 			}
-		}, func(w *vx.W, x c14Case) {
+		}, func(w *vx.W, bc blockCase) {
+			sh, ok := shapeByName[bc.Shape]
+			if !ok {
+				panic("c14: unknown block shape " + bc.Shape)
+			}
+			x := c14Base()
+			x.Method, x.ReqBody, x.ReqHdr, x.ResHdr, x.ResBody = "GET", 0, 0, 0, 5
+			if bc.Big {
+				x.SFrame, x.CFrame = 1<<24-1, 1<<24-1
+			}
+			sh.set(&x, bc.Pad)
+			if why := c14Invalid(&x); why != "" {
+				panic("c14: block shape " + bc.Shape + " outside the domain: " + why)
+			}
 			st, ok := c14Run(w, x)
 			if !ok {
 				return
 			}
 			w.Nontrivial()
-			side, blk := "req", st.c2s.firstBlock
-			if x.ResPad > 0 {
-				side, blk = "res", st.s2c.firstBlock
+			wire := &st.c2s
+			if sh.Res {
+				wire = &st.s2c
+			}
+			blk, wantBlocks := wire.firstBlock, 1
+			if sh.Trailer {
+				blk, wantBlocks = wire.lastBlock, 2
+			}
+			if wire.blocks != wantBlocks {
+				// the measured block is not the padded one
+				w.Outcome(fmt.Sprintf("header-block %s: %d header blocks on the wire, expected %d", bc.Shape, wire.blocks, wantBlocks))
+				return
 			}
 			cls := "away-from-boundary"
 			for k := 1; k <= 2; k++ {
@@ -219,8 +303,8 @@ func TestVerif_C14(t *testing.T) {
 					cls = fmt.Sprintf("%dx16384%+d", k, d)
 				}
 			}
-			w.Outcome(fmt.Sprintf("header-block %s big-frames=%v %s", side, x.SFrame > 16384, cls))
-			w.Distinct(fmt.Sprintf("hb|%s|%d", side, blk))
+			w.Outcome(fmt.Sprintf("header-block %s big-frames=%v %s end-stream-block-continued=%v", bc.Shape, bc.Big, cls, wire.endStreamC > 0))
+			w.Distinct(fmt.Sprintf("hb|%s|%d", bc.Shape, blk))
 		})
 
 		// ---- short reads
